@@ -449,9 +449,10 @@ class NPGetText(BaseTranslateFilter, TranslatableFilter):
 
 
 def _count(val: Any) -> Optional[int]:
-    if val in (None, False, True):
+    # Note that `0 in (None, False, True)` is true.
+    if val is None or isinstance(val, bool):
         return None
     try:
         return int(val)
-    except ValueError:
+    except (ValueError, OverflowError):
         return None
